@@ -32,7 +32,7 @@ pub struct Stats {
     pub order_dependent: bool,
     /// `x = map` has to remove a property that only this statement's earlier writes created
     pub needs_own_writes: bool,
-    /// keys that already existed and got a further parallel instance in this statement
+    /// keys that got a further parallel instance in this statement
     pub new_parallel_instances: BTreeSet<EKey>,
     /// SET = map removed a key that the same statement had written earlier
     pub replaced_own_writes: bool,
@@ -110,7 +110,9 @@ fn create_rel(m: &mut Model, st: &mut Stats, s: Iid, ty: &str, d: Iid, props: Ve
     let c = m.edges.entry(key.clone()).or_insert(0);
     let inst = *c;
     *c += 1;
-    if inst > 0 && !st.created_keys.contains(&key) {
+    if inst > 0 {
+        // (also when the statement created the first instance itself: `CREATE (a)-[:S {m: 0}]->(a)-[r:S]->(a)
+        // SET r = {}` -- whether `r` shows the shared map inside the statement is the same question)
         st.new_parallel_instances.insert(key.clone());
     }
     if !props.is_empty() {
